@@ -533,6 +533,53 @@ theorem C10_kms_early_destroy_breaks :
   revert this
   decide
 
+/-! ### what the response of CreateCryptoKeyVersion says, and what state a version is created in
+
+All theorems above quantify over `env.created` (the version is created PENDING_GENERATION, or directly ENABLED,
+DISABLED, GENERATION_FAILED), `env.resp` (what state the response reports, truthfully or not) and
+`env.pubDisabled` (whether GetPublicKey answers for a DISABLED version).  They hold because
+CreateNewSigningKeyVersion never reads the response's state and always polls: -/
+
+/-- **The response's state is ignored.**  Whatever state CreateCryptoKeyVersion's response reports, every run
+    of the rotation (same script, same start state) is the same: only what the polls report matters. -/
+theorem C10_kms_create_response_ignored (cfg : Cfg) (env : KmsEnv) (o : Option KObs) (req : Req)
+    (sc : Nat → Fault) (s : St) :
+    rotateKeyKms cfg { env with resp := o } req sc s = rotateKeyKms cfg env req sc s := by
+  rw [rotateKeyKms_resp]
+
+/-- The changed rotation (skip the wait unless the response says PENDING_GENERATION) is the shipped one for
+    as long as responses do say PENDING_GENERATION — which is why no test with such a service sees it. -/
+theorem C10_kms_trust_response_same_when_pending (cfg : Cfg) (env : KmsEnv) (req : Req) (h : env.respObs = .pending) :
+    rotateKeyKmsTrustResponse cfg env req = rotateKeyKms cfg env req := by
+  unfold rotateKeyKmsTrustResponse rotateKeyKms
+  rw [kmCreateKTrust_pending env h]
+
+/-- Cloud KMS creates versions DISABLED (with key material: GetPublicKey answers) and says so in the response -/
+def demoEnvDisabled : KmsEnv := { parent := "sk", created := .disabled, pubDisabled := some 7 }
+
+/-- **Trusting the response breaks the property.**  From a state that satisfies every hypothesis of
+    `C10_kms_primary_live`, with NO fault at all: a version created DISABLED whose public key is retrievable
+    is certified and recorded as primary without ever having been seen ENABLED, the rotation reports
+    success, the old primary is DESTROY_SCHEDULED, and the recorded primary is not a usable key — whereas
+    the shipped rotation stops at the first poll with nothing changed. -/
+theorem C10_kms_trust_response_breaks :
+    InvKms (demoCfg .gcsca) demoEnvDisabled demoK ∧ FreshKms (demoCfg .gcsca) demoEnvDisabled ⟨"sig", 3⟩ demoK ∧
+    (let r := rotateKeyKmsTrustResponse (demoCfg .gcsca) demoEnvDisabled ⟨"sig", 3⟩ noFault demoK.reload
+     r.tag = "ok" ∧ primaryOf (demoCfg .gcsca) r.state = "sk/cryptoKeyVersions/2" ∧
+     lookup r.state.keys "sk/cryptoKeyVersions/2" = none ∧
+     lookup r.state.kdead "sk/cryptoKeyVersions/2" = some .disabled ∧
+     lookup r.state.keys "sk/cryptoKeyVersions/1" = none ∧
+     lookup r.state.kdead "sk/cryptoKeyVersions/1" = some .scheduled ∧
+     ¬ PrimaryOK (demoCfg .gcsca) r.state.reload) ∧
+    (let r := rotateKeyKms (demoCfg .gcsca) demoEnvDisabled ⟨"sig", 3⟩ noFault demoK.reload
+     r.tag = "err" ∧ r.state.log.length = 3 ∧ primaryOf (demoCfg .gcsca) r.state = "sk/cryptoKeyVersions/1" ∧
+     lookup r.state.keys "sk/cryptoKeyVersions/1" = some 1) := by
+  refine ⟨demoK_inv, demoK_fresh, ⟨by decide, by decide, by decide, by decide, by decide, by decide, ?_⟩, by decide⟩
+  intro h
+  have := primaryOKb_of _ _ h
+  revert this
+  decide
+
 /-! ### non-vacuity (Cloud KMS stack) -/
 
 /-- Non-vacuity of `C10_kms_primary_live` / `C10_kms_destroy_after_commit`: the hypotheses hold for `demoK`
@@ -574,6 +621,39 @@ example :
     r.tag = "err" ∧ r.state.log.length = 16 ∧ primaryOKb (demoCfg .gcsca) r.state.reload = true ∧
     r'.tag = "err" ∧ r'.state.log.length = 3 ∧ lookup r'.state.kdead "sk/cryptoKeyVersions/2" = some .disabled ∧
     primaryOKb (demoCfg .gcsca) r'.state.reload = true := by
+  decide
+
+/-- … versions created without a generation phase: created ENABLED, the rotation succeeds after one poll (28
+    calls like gen = 0); a crash right after CreateCryptoKeyVersion (position 1) then leaves version 2 ENABLED
+    and unreferenced, the recorded primary untouched, and the retry hands out version 3; created DISABLED or
+    GENERATION_FAILED, the first poll stops the rotation (3 calls) with the version left as created — also
+    when the response claims ENABLED. -/
+example :
+    let r := rotateKeyKms (demoCfg .gcsca) { demoEnv with created := .enabled } ⟨"sig", 3⟩ noFault demoK.reload
+    let c := rotateKeyKms (demoCfg .gcsca) { demoEnv with created := .enabled } ⟨"sig", 3⟩ (crashAt 1) demoK.reload
+    let c2 := rotateKeyKms (demoCfg .gcsca).allowOverwrite demoEnv ⟨"sig", 3⟩ noFault c.state.reload
+    let d := rotateKeyKms (demoCfg .gcsca) { demoEnv with created := .disabled, resp := some .enabled } ⟨"sig", 3⟩ noFault demoK.reload
+    let g := rotateKeyKms (demoCfg .gcsca) { demoEnv with created := .genFailed } ⟨"sig", 3⟩ noFault demoK.reload
+    r.tag = "ok" ∧ r.state.log.length = 28 ∧ primaryOKb (demoCfg .gcsca) r.state.reload = true ∧
+    c.tag = "crash" ∧ c.state.log.length = 2 ∧ lookup c.state.keys "sk/cryptoKeyVersions/2" = some 2 ∧
+    primaryOf (demoCfg .gcsca) c.state = "sk/cryptoKeyVersions/1" ∧ primaryOKb (demoCfg .gcsca) c.state.reload = true ∧
+    c2.tag = "ok" ∧ primaryOf (demoCfg .gcsca) c2.state = "sk/cryptoKeyVersions/3" ∧
+    d.tag = "err" ∧ d.state.log.length = 3 ∧ lookup d.state.kdead "sk/cryptoKeyVersions/2" = some .disabled ∧
+    g.tag = "err" ∧ g.state.log.length = 3 ∧ lookup g.state.kdead "sk/cryptoKeyVersions/2" = some .genFailed ∧
+    primaryOKb (demoCfg .gcsca) g.state.reload = true := by
+  decide
+
+/-- … the role of `pubDisabled` and of a response that misreports: when GetPublicKey refuses DISABLED versions the
+    changed rotation fails at the subject's public key (4 calls) with nothing durable changed; a response that
+    claims ENABLED for a version that is still PENDING_GENERATION makes the changed rotation fail where the
+    shipped one (which polls) succeeds. -/
+example :
+    let t := rotateKeyKmsTrustResponse (demoCfg .gcsca) { demoEnvDisabled with pubDisabled := none } ⟨"sig", 3⟩ noFault demoK.reload
+    let l := rotateKeyKmsTrustResponse (demoCfg .gcsca) { demoEnv with gen := 1, resp := some .enabled } ⟨"sig", 3⟩ noFault demoK.reload
+    let g := rotateKeyKms (demoCfg .gcsca) { demoEnv with gen := 1, resp := some .enabled } ⟨"sig", 3⟩ noFault demoK.reload
+    t.tag = "err" ∧ primaryOKb (demoCfg .gcsca) t.state.reload = true ∧ lookup t.state.keys "sk/cryptoKeyVersions/1" = some 1 ∧
+    l.tag = "err" ∧ lookup l.state.kdead "sk/cryptoKeyVersions/2" = some (.pending 1) ∧
+    g.tag = "ok" ∧ primaryOf (demoCfg .gcsca) g.state = "sk/cryptoKeyVersions/2" ∧ primaryOKb (demoCfg .gcsca) g.state.reload = true := by
   decide
 
 end GceTcb.CA
